@@ -2146,8 +2146,13 @@ impl TransactionBuilder {
                             &plutus_data.clone(),
                             &script_ref.clone(),
                         )?;
-                        if nft_changes.len() == 0 {
-                            // this likely should never happen
+                        if !nft_changes
+                            .iter()
+                            .any(|nft_change| nft_change.partial_cmp(&MultiAsset::new()) == Some(Ordering::Greater))
+                        {
+                            // every pass has to take some asset out of change_left: an asset that does not fit
+                            // max_value_size on its own is never packed, and the loop would only pile up
+                            // asset-less outputs (without end when they cost neither ADA nor fee)
                             return Err(JsError::from_str("NFTs too large for change output"));
                         }
                         for nft_change in nft_changes.iter() {
